@@ -50,6 +50,21 @@ CHECKS = {
         note="Trusted: Rust's Ord on the native values. f32/f64/uuid/chrono types are not part of the baseline configuration.",
         design="5/C15",
     ),
+
+    "C08": dict(
+        category="fault_enumeration",
+        technique="runtime monitoring: fault-injecting storage backend (k-th call fails), reference-model oracle on every API result, then crash-image oracle on the storage left behind",
+        text="Each history is run fault-free to count backend calls, then re-run with the k-th call of a chosen kind failing once or permanently (k sampled in quick, every k for part of the histories in thorough). Panics, wrong results, writes accepted after a reported I/O error and reads that are neither an error nor a committed state are violations; the dropped database's storage is reopened as left and under crash subsets of its unsynced tail and must equal one admissible commit point, pass check_integrity and decode under the independent decoder.",
+        note="Trusted: a failing call leaves the storage untouched; the reference model; the crash model of C01 for the unsynced tail. k is sampled except for the exhaustive histories of the thorough tier.",
+        design="5/C08",
+    ),
+    "C20": dict(
+        category="exploration",
+        technique="runtime monitoring: online contract assertions inside the storage backend given to redb (bounds, copy-on-write set decoded independently at every sync, close-once, no call after close, read-only never mutates) over failing opens, injected failures, life-cycle orders and random histories",
+        text="The monitoring backend asserts the contract at every call. Scenarios: 14 kinds of damaged/unclean images opened (and used when the open succeeds), open/use/drop with the k-th backend call failing, database dropped while a writer is live on another thread, writer and readers outliving the database, reopen cycles, check_integrity/compact, read-only databases over clean and unclean files (through the cfg(redb_verif) constructor), random histories. Scenarios and fault indices are sampled.",
+        note="Trusted: the monitor serializes calls with its own mutex, so 'after close' means 'acquired the monitor after close() did'; the copy-on-write set comes from harness/src/fmt.rs. The real FileBackend is not traced in the quick tier.",
+        design="5/C20",
+    ),
 }
 
 REASONS_NOT_YET = "check not built yet in this revision of /verif (runtime-monitoring design exists in DESIGN.md section 5)"
